@@ -2,9 +2,9 @@
    [vm_compute] on a concrete witness for the _refuted / _nonvacuous statements) and followed by Print Assumptions.
 
    Flag sets (Model.flags): [head] = /repo HEAD (cd04fe0): everything found with this check is fixed there except that
-   three open findings (f_stale: the receiver never compares sequence numbers; f_lagdel: bulk sync of a lagging
-   standby; f_race: sender steps not atomic); [repaired] = [head] with those repaired; [defective] = /repo before
-   the C11 fixes bb5ec1b, 88d6de6, 43d3a11, cd04fe0.  Theorems named *_before_<commit>_* are historical witnesses of
+   two open findings (f_stale: the receiver never compares sequence numbers; f_lagdel: bulk sync of a lagging
+   standby); [repaired] = [head] with those repaired; [defective] = /repo before
+   the C11 fixes bb5ec1b, 88d6de6, 43d3a11, cd04fe0, 9165119.  Theorems named *_before_<commit>_* are historical witnesses of
    defects fixed in that commit; the correspondence check runs [repaired] and [head] only, so a regression to any of
    them is a VIOLATION. *)
 From OV Require Import Common.Base C11.Model C11.Proofs.
@@ -415,6 +415,7 @@ Print Assumptions C11_bulk_then_stream_store_converges_partial.
 (* Historical (fixed in cd04fe0): without the coverage hypothesis — capacity 2, three sessions created, fresh standby,
    bulk sync — session 1 is missing on the standby *)
 Definition before_cd04fe0 : flags := mkflags false true false false false true true true.
+Definition before_9165119 : flags := mkflags false true false false false false true true.
 Theorem C11_bulk_window_before_cd04fe0_refuted :
   exists cap evs1,
   let y := sys_run before_cd04fe0 (sys_init cap [1%N] ex_reg) (ev_ops evs1 ++ [OBulk 1]) in
@@ -459,8 +460,9 @@ Qed.
 Print Assumptions C11_bulk_lagging_head_refuted.
 
 (* ------------------------------------------------------------------ concurrent handlers of the sender *)
-(* The event bus runs every handler call in its own goroutine.  With number + push + enqueue atomic
-   (fixes/C11_sender_atomic.patch, ~f_race), for EVERY interleaving of handler starts and completions the stream
+(* The event bus runs every handler call in its own goroutine, and Manager.driveSync calls SetActive on every role
+   transition.  With number + push + enqueue atomic (/repo HEAD since 9165119, ~f_race), for EVERY interleaving of handler
+   starts, completions and role transitions (failover and failback within one process included) the stream
    (sendCh) carries consecutive sequence numbers in order, the backlog is that stream pushed in order, and Range is
    exact — i.e. the hypothesis [consec] of C11_backlog_range and the stream shape assumed by C11_converges* hold. *)
 Theorem C11_sender_atomic_exact :
@@ -475,16 +477,16 @@ Theorem C11_sender_atomic_exact :
 Proof. exact sender_atomic_exact. Qed.
 Print Assumptions C11_sender_atomic_exact.
 
-(* Open finding sender-seq-push-not-atomic (/repo HEAD, f_race): handler 1 takes number 1 and is preempted, handler 2
+(* Historical (fixed in 9165119; flag f_race): handler 1 takes number 1 and is preempted, handler 2
    takes 2, pushes and enqueues, then handler 1 finishes.  The stream is 2,1; the ring holds 2,1; Range(3,3) returns the
    entry with sequence 1 (outside the range) and Range(1,1) returns nothing although sequence 1 is retained. *)
-Theorem C11_sender_race_head_refuted :
+Theorem C11_sender_race_before_9165119_refuted :
   exists ops,
-  let st := ss_run head 1 4 ops in
+  let st := ss_run before_9165119 1 4 ops in
   map q_seq (ss_chan st) = [2; 1]%N /\ ~ consec 1 (ss_chan st) /\
   map (option_map q_seq) (ring_list (ss_ring st)) = [Some 2; Some 1]%N /\
-  option_map (map (option_map q_seq)) (match range head (ss_ring st) 3 3 with Ok l => Some l | _ => None end) = Some [Some 1%N] /\
-  range head (ss_ring st) 1 1 = Ok [] /\
+  option_map (map (option_map q_seq)) (match range before_9165119 (ss_ring st) 3 3 with Ok l => Some l | _ => None end) = Some [Some 1%N] /\
+  range before_9165119 (ss_ring st) 1 1 = Ok [] /\
   (* the same interleaving with atomic handlers *)
   map q_seq (ss_chan (ss_run repaired 1 4 ops)) = [1; 2]%N.
 Proof.
@@ -493,4 +495,17 @@ Proof.
   - intros H. specialize (H 0%nat _ eq_refl). vm_compute in H. discriminate.
   - vm_compute. repeat split; reflexivity.
 Qed.
-Print Assumptions C11_sender_race_head_refuted.
+Print Assumptions C11_sender_race_before_9165119_refuted.
+
+Example C11_sender_roles_nonvacuous :
+  (* three updates, failover (an event while not active is not replicated), failback, two more updates, with an
+     overlapping pair of handlers at the end: the counter goes on, the ring holds 1..5 in order *)
+  let s := ex_sess 1 None 0 in
+  let ops := [SStart 1 s false; SFinish 1; SStart 2 s false; SFinish 2; SStart 3 s false; SFinish 3;
+              SSetActive false; SStart 4 s false; SFinish 4; SSetActive true;
+              SStart 5 s false; SStart 6 s false; SFinish 6; SFinish 5] in
+  let st := ss_run head 1 8 ops in
+  map q_seq (ss_chan st) = [1; 2; 3; 4; 5]%N /\
+  map (option_map q_seq) (ring_list (ss_ring st)) = [Some 1; Some 2; Some 3; Some 4; Some 5]%N /\ ss_seq st = 5%N.
+Proof. vm_compute. repeat split; reflexivity. Qed.
+Print Assumptions C11_sender_roles_nonvacuous.
